@@ -2,6 +2,7 @@ import GM.CP
 import GM.Alias
 import TM.Cycle
 import GM.Config
+import VM.Validate
 /-! Line-protocol driver for the graph layer (slices G-cp, G-sel).  Protocol: DESIGN.md appendix A.3.
 
     Q <id> <n>
@@ -9,6 +10,10 @@ import GM.Config
     cp                                           -> <id> CP <v0> … <v(n-1)>
     cfg <seq flag 0|1 per node> ; <alias> <prio|-> <seq 0|1|-> ; …     a reconfiguration (GM.applyConfig: config_from_dict/yaml/json)
                                                  -> <id> CFG OK P <prio…> S <seq…> CP <compound priority…> | <id> CFG REFUSED alias|ambiguous
+    valid <setup flag 0|1 per node> ; <constant-holder flag 0|1 per node>
+                                                 the build-time dependency rules (VM.validateB; the N lines carry the debug flags,
+                                                 a predecessor = any dependency: argument, keyword argument or activation flag)
+                                                 -> <id> VALID ACCEPT|REFUSE
     cyc                                          -> <id> CYC ACCEPT|REFUSE     the build-time cycle check (TM.acyclicB);
                                                  for this query the N lines may list the nodes in ANY order
     I <node> <id> <tag>*                         (optional, any number: the node's id string and its tags)
@@ -122,6 +127,15 @@ def main : IO Unit := do
                 let cps := " ".intercalate ((List.range n).map fun m => toString (cpAll g a'.prio m))
                 IO.println s!"{qid} CFG OK P {ps} S {ss} CP {cps}"
           | [] => IO.println s!"{qid} PARSE"
+        | "valid" :: rest =>
+          match splitOnTok rest ";" with
+          | [su, co] =>
+            let suA : Array Bool := (su.map (· == "1")).toArray
+            let coA : Array Bool := (co.map (· == "1")).toArray
+            let recOf : Node → VM.NodeRec := fun m => ⟨"", (g.preds m).map (fun p => (⟨p, []⟩ : VM.Ref)), [], none⟩
+            let marks : VM.Marks := ⟨dbgF, fun m => suA.getD m false, fun m => coA.getD m false⟩
+            IO.println s!"{qid} VALID {if VM.validateB recOf (List.range n) marks then "ACCEPT" else "REFUSE"}"
+          | _ => IO.println s!"{qid} PARSE"
         | ["cyc"] =>
           IO.println s!"{qid} CYC {if TM.acyclicB (List.range n) g.preds then "ACCEPT" else "REFUSE"}"
         | ["cp"] =>
